@@ -29,18 +29,23 @@ from vk import npshim
 from vk import sym as S
 
 
+def _k1(x):
+    # a constant term and the same number as a float are the same argument value
+    if isinstance(x, S.Sym):
+        return ("c", float(x.a)) if x.op == "c" else x.uid
+    return ("c", float(x))
+
+
 def _key(args):
     out = []
     for a in args:
         if a is None:
             out.append(None)
-        elif isinstance(a, S.Sym):
-            out.append(a.uid)
-        elif isinstance(a, (int, float, np.integer, np.floating)):
-            out.append(("c", float(a)))
+        elif isinstance(a, (S.Sym, int, float, np.integer, np.floating)):
+            out.append(_k1(a))
         else:
             arr = np.asarray(a, dtype=object).ravel()
-            out.append(tuple(x.uid if isinstance(x, S.Sym) else ("c", float(x)) for x in arr))
+            out.append(tuple(_k1(x) for x in arr))
     return tuple(out)
 
 
